@@ -545,12 +545,19 @@ def replay(path):
     if d.get("kind") == "ops":
         with Lock("lean"):
             lake_build(["oracle"])
-        mism, tr = check_script(cx.bins["corr"], d["family"], d["input"], cx.work, "replay")
-        print(tr)
-        for m in mism:
-            print(f"MISMATCH op=[{m['op']}] expected=[{m['expected']}] observed=[{m['observed']}]")
-        print("replay:", "still fails" if mism else "passes now")
-        return 1 if mism else 0
+        # deterministic scripts are re-executed once; concurrent programs ("run ...") up to 30 times
+        concurrent = any(op.startswith("run ") for op in d["input"])
+        hits, runs = 0, (30 if concurrent else 1)
+        for k in range(runs):
+            mism, tr = check_script(cx.bins["corr"], d["family"], d["input"], cx.work, "replay")
+            if mism:
+                hits += 1
+                if hits == 1:
+                    print(tr[-6000:])
+                    for m in mism[:5]:
+                        print(f"MISMATCH op=[{m['op']}] expected=[{m['expected']}] observed=[{m['observed']}]")
+        print(f"replay: {hits}/{runs} executions still fail")
+        return 1 if hits else 0
     fn = spec.get("replay")
     if fn:
         return fn(cx, d)
